@@ -11,7 +11,7 @@ from .. import core, realcode
 
 VALUES = [0, 1, -7, 123456789, 2 ** 40, 1.5, -0.25, 1e-7, 1e15, 0.1, True, False, 'text', 'x y', "it's", 'Ünï', '  padded  ', '007', 'TRUE', '1.5',
           datetime.datetime(2024, 2, 29, 12, 30, 15), datetime.datetime(1999, 12, 31), datetime.date(2024, 1, 1), datetime.time(1, 2, 3), 'line\nbreak', '#N/A',
-          datetime.datetime(2024, 3, 5, 14, 30, 15, 250000), datetime.datetime(2001, 1, 1, 0, 0, 0, 500000), ' =1+1', '\t=A1', "'=1"]
+          datetime.datetime(2024, 3, 5, 14, 30, 15, 250000), datetime.datetime(2001, 1, 1, 0, 0, 0, 500000), ' =1+1', '\t=A1', "'=1", 'ok \U0001F600 done', '\U0001F4CA']
 TITLES = ['Sheet1', 'Data 2', "o'clock", 'Лист', 'A1', 'SUM', 'x-y', 'Z', 'very long sheet title 123', '2024']
 
 
